@@ -63,7 +63,7 @@ std::string check_image(const Program & p, const LoggedRun & lr, const CrashPoin
             if (it == m.sigs.end()) { clause = "definitions"; return strf("signal %d is returned but was never written", id); }
             const SigM & s = it->second;
             auto S = [](const OptStr & o) { return o.null ? std::string() : o.str(); };
-            if (g.def.data_type != s.dt->code || g.def.signal_type != s.def.stype || g.def.source_id != s.def.src || g.name != S(s.def.name) || g.units != S(s.def.units)) { clause = "definitions"; return strf("signal %d definition is altered", id); }
+            if (g.def.data_type != (s.dt->code | ((uint32_t) (s.def.q & 0xff) << 16)) || g.def.signal_type != s.def.stype || g.def.source_id != s.def.src || g.name != S(s.def.name) || g.units != S(s.def.units)) { clause = "definitions"; return strf("signal %d definition is altered", id); }
             wa = &s.annos;
             if (s.fsr) {
                 if (g.len_rc) { clause = "length"; return strf("signal %d: jls_rd_fsr_length returns %d %s on a file that opened", id, g.len_rc, ec_name(g.len_rc)); }
@@ -141,6 +141,7 @@ std::string check_image(const Program & p, const LoggedRun & lr, const CrashPoin
 }  // namespace
 
 std::string prop_generate(Tape & t, int size) {
+    gen_allow_q() = true;   // integer signals may carry a fixed-point exponent in their data type
     GenOpts go;
     go.allow_big = false;
     go.allow_gaps = size > 30;
